@@ -67,7 +67,8 @@ func vhInv(s *scanningState) bool {
 	}
 	switch s.state {
 	case looking:
-		return len(s.prefix) == 0
+		// nothing recorded yet: every edge into looking starts from an empty snapshot
+		return len(s.prefix) == 0 && G == nil
 	case gotRaceHeader1, gotRaceHeader2:
 		return G == nil
 	case betweenRoutine, gotRoutineHeader, gotFileFunc, gotFileCreated, gotUnavail,
